@@ -22,6 +22,9 @@ SPEC = {
              "(IPv4 dotted quad, RFC 4291 text forms, n groups of two hex digits): valid => accepted with the reference value, invalid => an exception; "
              "strings the documentation leaves open (leading-zero octets, hardware-address groups of < 2 digits / empty string / stray colons) are counted, "
              "not compared; the shared hardware-address parser is also swept through HWAddress<2>, where the length bound reaches past a complete address. "
+             "single foreign byte: for 5 v4 / 6 v6 / 4 hw / 3 hw2 valid seeds EVERY one of the 256 byte values substituted at and inserted before EVERY position "
+             "(control characters, 0x7f..0xff and the neighbours of the digit/letter ranges included), thorough: every pair of positions x a 27-value set of such bytes, "
+             "and all 65536 byte pairs in the first and last group of a hardware address; embedded NUL in IPv4/IPv6 text is counted, not compared. "
              "rng: every prefix length 0..32 / 0..128 / 0..48 x every boundary base address through operator/ and from_mask(from_prefix_length), "
              "from_mask with every boundary value as (also non-contiguous) mask x 12 bases, explicit (first,last[,only_hosts]) over all ordered pairs of a "
              "28-element set: first = a & m, last = a | ~m, contains() on 14 probe points, is_iterable() per its documentation, iteration of every range "
@@ -37,6 +40,6 @@ SPEC = {
     "assumptions": ["strings whose validity the documentation leaves open are not compared (IPv4 octets with leading zeros; hardware-address text with groups of fewer than two digits, empty text, leading/trailing colon)",
                     "short hardware-address text (k < n complete groups) is valid and zero padded, as fixed by the repository's ShortStringConstructor unit test",
                     "iterating a range whose is_iterable() is false is documented as undefined and is not attempted",
-                    "embedded NUL characters in std::string arguments are outside the alphabets",
+                    "IPv4/IPv6 text with an embedded NUL character is not compared (the constructors pass c_str() to inet_pton; undocumented); for hardware addresses NUL is an ordinary foreign byte and must be rejected",
                     "sanitizers (stage san): ASan+UBSan (alignment check off)"],
 }
